@@ -194,6 +194,14 @@ def scripted(rng):
     # creators with and without a component-id file, in both orders (H = PHYP: the table is not consulted)
     out.append(('component ids, without first', [st('x', ud_sec(rng, 0x1111)), st('H', ud_sec(rng, 0x4142)), st('O', ud_sec(rng, 0x1234)), st('B', ud_sec(rng, 0x2222)),
                                                  st('x', ud_sec(rng, 0x1111)), st('O', ud_sec(rng, 0x1111))]))
+    # built-in text / JSON user data that ends in the middle of a multi-byte character, followed by ordinary text: nothing of one log's bytes may be
+    # held back for the next
+    def builtin(sub_, payload):
+        s_ = ud_sec(rng, 0x2000, payload)
+        s_['hdr']['sub'] = sub_
+        return s_
+    out.append(('text cut inside a character', [st('O', builtin(3, b'first line\nsecond \xe2\x82')), st('O', builtin(3, b'plain text')), st('O', builtin(1, b'{"k": "v\xf0\x9f\x98"}')),
+                                                st('O', builtin(1, b'{"a": 1}')), st('O', builtin(3, b'\xac euro')), st('O', builtin(3, b'plain text'))]))
     out.append(('component ids, with first', [st('O', ud_sec(rng, 0x1234)), st('x', ud_sec(rng, 0x1111)), st('B', ud_sec(rng, 0x2222)), st('H', ud_sec(rng, 0x4142)),
                                               st('O', ud_sec(rng, 0x1111)), st('x', ud_sec(rng, 0x1111))]))
     return out
